@@ -462,3 +462,59 @@ pub fn gen_fuzzloop(seed: u64, n: usize) -> Vec<Scenario> {
     }
     v
 }
+
+/// Builder-alone family (C16): every parameter at its boundaries, including values the command-line
+/// layer would reject; whatever `Builder::build` accepts must run over a plain, fully answering path.
+pub fn gen_cfgrun(seed: u64, n: usize) -> Vec<Scenario> {
+    let mut rng = StdRng::seed_from_u64(seed ^ 0x5eed_0c16);
+    let mut out = Vec::new();
+    for i in 0..n {
+        let s = rng.random::<u64>();
+        let mut sc = Scenario { id: format!("cfgrun-{seed}-{i}"), seed: s, ..Scenario::default() };
+        sc.proto = (*pick(&mut rng, &["icmp", "udp", "tcp"])).into();
+        sc.strat = (*pick(&mut rng, &["classic", "classic", "paris", "dublin"])).into();
+        sc.ports = (*pick(&mut rng, &["none", "src", "dest", "both"])).into();
+        sc.fam = *pick(&mut rng, &[4, 6]);
+        sc.privileged = rng.random_bool(0.7);
+        sc.sport = *pick(&mut rng, &[0, 1, 1023, 1024, 33000, 65535]);
+        sc.dport = *pick(&mut rng, &[0, 1, 80, 33434, 65535]);
+        sc.ext = rng.random_bool(0.5);
+        sc.trace_id = *pick(&mut rng, &[0, 1, 1234, 65535]);
+        // one or two parameters at a boundary, the rest ordinary: a rejected parameter must not mask the others
+        sc.first_ttl = 1;
+        sc.max_ttl = *pick(&mut rng, &[4, 8, 64]);
+        sc.max_inflight = 24;
+        for _ in 0..rng.random_range(0..3) {
+            match rng.random_range(0..9) {
+                0 => sc.first_ttl = *pick(&mut rng, &[0, 2, 5, 64, 254, 255]),
+                1 => sc.max_ttl = *pick(&mut rng, &[0, 1, 2, 254, 255]),
+                2 => sc.max_inflight = *pick(&mut rng, &[0, 1, 2, 255]),
+                3 => sc.init_seq = *pick(&mut rng, &[0, 1, 64511, 64512, 65535]),
+                4 => sc.packet_size = *pick(&mut rng, &[0, 1, 27, 28, 47, 48, 1024, 1025, 1500, 65535]),
+                5 => sc.max_samples = *pick(&mut rng, &[0, 1]),
+                6 => sc.max_flows = *pick(&mut rng, &[0, 1]),
+                7 => {
+                    sc.read_timeout_us = *pick(&mut rng, &[0, 1_000, 100_000]);
+                    sc.grace_us = *pick(&mut rng, &[0, 1_000, 2_000_000]);
+                }
+                _ => {
+                    sc.min_round_us = *pick(&mut rng, &[0, 10_000, 2_000_000]);
+                    sc.max_round_us = *pick(&mut rng, &[0, 10_000, 1_000_000]);
+                }
+            }
+        }
+        sc.tcp_timeout_us = *pick(&mut rng, &[0, 10_000, 1_000_000]);
+        sc.pattern = *pick(&mut rng, &[0, 0xff]);
+        sc.tos = *pick(&mut rng, &[0, 0xff]);
+        let dist = rng.random_range(1..=6);
+        sc.topo = Topo {
+            paths: vec![Path { hops: (1..dist).map(|k| Hop { addr: 100 + u16::from(k), ..Hop::default() }).collect(), dist, target_silent: false, tcp: "synack".into() }],
+            ..Topo::default()
+        };
+        sc.net.hop_delay_us = 1_000;
+        sc.max_rounds = rng.random_range(2..=3);
+        sc.max_recv_calls = 200_000;
+        out.push(sc);
+    }
+    out
+}
